@@ -387,7 +387,9 @@ func (t *Tpl) writeNode(w io.Writer, node *node, ctx *Ctx) (err error) {
 					}
 				}
 			}
-			// Call condition-ok helper func.
+			// Call condition-ok helper func. A helper that leaves its outputs untouched says "no value, not ok":
+			// it must not inherit the verdict of an earlier comparison or helper.
+			ctx.bufX, ctx.BufB = nil, false
 			fn(ctx, &ctx.bufX, &ctx.BufB, ctx.bufA)
 			r = ctx.BufB
 			// Set var, ok to context.
